@@ -73,6 +73,46 @@ fn bytes_of(v: &SerializedValue) -> &[u8] {
     v
 }
 
+/// Is `real` within the range of equivalent re-encodings spanned by `lo` (the reference's output: unset optional
+/// fields left out) and `hi` (the same with every unset optional field written as an explicit None)? `lo` and `hi`
+/// have the same shape except for additional None-valued fields in the structs of `hi`.
+pub fn between(real: &Value, lo: &Value, hi: &Value) -> bool {
+    fn maps<K: std::hash::Hash + Eq>(r: &HashMap<K, Value>, l: &HashMap<K, Value>, h: &HashMap<K, Value>) -> bool {
+        r.len() == l.len()
+            && l.len() == h.len()
+            && r.iter().all(|(k, rv)| match (l.get(k), h.get(k)) {
+                (Some(lv), Some(hv)) => between(rv, lv, hv),
+                _ => false,
+            })
+    }
+    match (real, lo, hi) {
+        (Value::Struct(r), Value::Struct(l), Value::Struct(h)) => {
+            l.0.keys().all(|id| r.0.contains_key(id))
+                && r.0.iter().all(|(id, rv)| match (l.0.get(id), h.0.get(id)) {
+                    (Some(lv), Some(hv)) => between(rv, lv, hv),
+                    (None, Some(hv)) => rv == hv && hv.is_none(),
+                    _ => false,
+                })
+        }
+        (Value::Some(r), Value::Some(l), Value::Some(h)) => between(r, l, h),
+        (Value::Enum(r), Value::Enum(l), Value::Enum(h)) => r.id == l.id && l.id == h.id && between(&r.value, &l.value, &h.value),
+        (Value::Vec(r), Value::Vec(l), Value::Vec(h)) => {
+            r.len() == l.len() && l.len() == h.len() && r.iter().zip(l).zip(h).all(|((r, l), h)| between(r, l, h))
+        }
+        (Value::U8Map(r), Value::U8Map(l), Value::U8Map(h)) => maps(r, l, h),
+        (Value::I8Map(r), Value::I8Map(l), Value::I8Map(h)) => maps(r, l, h),
+        (Value::U16Map(r), Value::U16Map(l), Value::U16Map(h)) => maps(r, l, h),
+        (Value::I16Map(r), Value::I16Map(l), Value::I16Map(h)) => maps(r, l, h),
+        (Value::U32Map(r), Value::U32Map(l), Value::U32Map(h)) => maps(r, l, h),
+        (Value::I32Map(r), Value::I32Map(l), Value::I32Map(h)) => maps(r, l, h),
+        (Value::U64Map(r), Value::U64Map(l), Value::U64Map(h)) => maps(r, l, h),
+        (Value::I64Map(r), Value::I64Map(l), Value::I64Map(h)) => maps(r, l, h),
+        (Value::StringMap(r), Value::StringMap(l), Value::StringMap(h)) => maps(r, l, h),
+        (Value::UuidMap(r), Value::UuidMap(l), Value::UuidMap(h)) => maps(r, l, h),
+        _ => real == lo,
+    }
+}
+
 fn hex(b: &[u8]) -> String {
     b.iter().map(|x| format!("{x:02x}")).collect()
 }
@@ -83,6 +123,8 @@ struct Run<'a> {
     corrupt: Option<u64>,
     violations: u64,
     violation_list: Vec<Json>,
+    drifts: u64,
+    drift_list: Vec<Json>,
     roundtrips: u64,
     hops_run: u64,
     accepted: u64,
@@ -109,16 +151,19 @@ impl Run<'_> {
         let chain: Vec<&str> = vec["chain"].as_array().ok_or("no chain")?.iter().map(|c| c.as_str().unwrap_or("")).collect();
         let hops = vec["hops"].as_array().ok_or("no hops")?;
         let value = model::value(&self.toks, &vec["v"])?;
-        let mut expected: Vec<(bool, Value)> = Vec::new();
+        let mut expected: Vec<(bool, Value, Value)> = Vec::new();
         for h in hops {
             let ok = h["ok"].as_bool().ok_or("hop without ok")?;
-            expected.push((ok, if ok { model::value(&self.toks, &h["out"])? } else { Value::None }));
+            let out = if ok { model::value(&self.toks, &h["out"])? } else { Value::None };
+            let alt = if ok && h.get("alt").is_some() { model::value(&self.toks, &h["alt"])? } else { out.clone() };
+            expected.push((ok, out, alt));
         }
         if self.corrupt == Some(id) {
             // binding self test: the oracle is corrupted, the comparison below must object
-            let (ok, out) = expected.last_mut().unwrap();
+            let (ok, out, alt) = expected.last_mut().unwrap();
             if *ok {
                 *out = Value::Some(Box::new(out.clone()));
+                *alt = out.clone();
             } else {
                 *ok = true;
             }
@@ -156,7 +201,7 @@ impl Run<'_> {
                     let res = catch_unwind(AssertUnwindSafe(|| (entry.run)(&cur, path)));
                     let ctx = json!({"enc": enc, "path": format!("{path:?}"), "hop": h, "type": name, "rust": entry.rust,
                                      "input_hex": hex(&cur)});
-                    let (exp_ok, exp_out) = &expected[h];
+                    let (exp_ok, exp_out, exp_alt) = &expected[h];
                     match res {
                         Err(_) => {
                             self.violation(format!("{cls}: the generated code panicked"), vec, ctx);
@@ -203,7 +248,14 @@ impl Run<'_> {
                                     break;
                                 }
                                 Ok(real) => {
-                                    if real != *exp_out {
+                                    if real != *exp_out && between(&real, exp_out, exp_alt) {
+                                        // equivalent, but not the reference's own re-encoding: conformance, not a verdict
+                                        self.drifts += 1;
+                                        if self.drift_list.len() < 20 {
+                                            self.drift_list.push(json!({"id": id, "cls": cls, "what": "the re-encoding is equivalent but writes unset optional fields as explicit None",
+                                                "ctx": ctx, "real": format!("{real:?}"), "predicted": format!("{exp_out:?}")}));
+                                        }
+                                    } else if real != *exp_out {
                                         self.violation(
                                             format!("{cls}: the re-encoded value is not the predicted equivalent value"),
                                             vec,
@@ -255,6 +307,8 @@ pub fn main(entries: &[Entry]) {
         corrupt,
         violations: 0,
         violation_list: Vec::new(),
+        drifts: 0,
+        drift_list: Vec::new(),
         roundtrips: 0,
         hops_run: 0,
         accepted: 0,
@@ -294,6 +348,7 @@ pub fn main(entries: &[Entry]) {
         json!({"vectors": run.vectors, "roundtrips": run.roundtrips, "hops": run.hops_run, "accepted": run.accepted,
                "rejected": run.rejected, "nontrivial": run.nontrivial, "v1_inputs": run.v1_inputs, "types": entries.len(),
                "by_class": run.by_class, "violations": run.violations, "violation_list": run.violation_list,
+               "drifts": run.drifts, "drift_list": run.drift_list,
                "samples": run.samples})
     );
 }
